@@ -213,7 +213,9 @@ impl Ctx {
     }
 
     fn absorb(&mut self, st: Stats) {
-        if st.executions > 1 && st.distinct_logs < 2 {
+        // vacuity guard — but never in front of a verdict: when executions fail (possibly all of them, before
+        // anything was observed) the violations are what has to be reported
+        if st.executions > 1 && st.distinct_logs < 2 && st.found.is_empty() {
             explore::machinery(format!(
                 "harness {}: {} executions produced {} distinct observation logs (vacuous)",
                 st.name, st.executions, st.distinct_logs
@@ -354,6 +356,8 @@ impl Ctx {
         for (mut v, idx, count) in st.found {
             if v.decoded.is_empty() {
                 v.decoded = describe(idx);
+            } else {
+                v.decoded = format!("{} | smallest failing case: {}", v.decoded, describe(idx));
             }
             let fp = format!("{} harness={} {}", self.property, name, v.fingerprint);
             self.violations
@@ -528,6 +532,31 @@ pub fn run(property: &str, level: &str, f: impl FnOnce(&mut Ctx)) -> ! {
         violations: Vec::new(),
         t0: Instant::now(),
     };
+
+    // an execution that never returns is a verdict (hang), not a stuck check
+    {
+        let prop = property.to_string();
+        let tier_s = if tier == Tier::Quick { "quick" } else { "thorough" };
+        let replaying = ctx.is_replay();
+        explore::set_hang_hook(Box::new(move |harness, prefix, secs| {
+            if replaying {
+                println!("REPLAY property={prop} outcome=fail fingerprint={prop} harness={harness} outcome=hang");
+                std::process::exit(1);
+            }
+            let fp = format!("{prop} harness={harness} outcome=hang (one execution did not return within the per-execution limit)");
+            let dir = verif_root().join("replays").join(&prop);
+            let _ = std::fs::create_dir_all(&dir);
+            let path = dir.join(format!("{harness}-hang-{:016x}.json", fnv(&format!("{prefix:?}"))));
+            let choices: Vec<Value> = prefix.iter().map(|p| json!({"label": p.label, "arity": p.arity, "taken": p.taken})).collect();
+            let file = json!({"property": prop, "harness": harness, "tier": tier_s, "fingerprint": fp, "choices": choices,
+                "decoded": "the execution selected by these choices did not return", "expected": "every call returns", "observed": format!("still running after {secs} s")});
+            let _ = std::fs::write(&path, serde_json::to_string_pretty(&file).unwrap());
+            println!("VIOLATION property={prop} replay={}", path.display());
+            println!("  fingerprint: {fp}");
+            println!("  observed: one execution still running after {secs} s (hang in the code under test, or a livelock)");
+            std::process::exit(1);
+        }));
+    }
 
     let r = std::panic::catch_unwind(std::panic::AssertUnwindSafe(|| f(&mut ctx)));
     if let Err(p) = r {
